@@ -214,7 +214,8 @@ fn run_case<T: Est>(params: &[&str], ops: &[Vec<&str>], out: &mut String) {
                     max_len: op[4].parse().unwrap(),
                     byref: op[5] == "r",
                     delay_seed: op[6].parse().unwrap(),
-                    filter_seed: op[7].parse().unwrap(),
+                    filter_seed: if op[7].starts_with('t') { 0 } else { op[7].parse().unwrap() },
+                    filter_ge: if op[7].starts_with('t') { pf(&op[7][1..]) } else { f64::NAN },
                 };
                 let vals = pfs(&op[8..]);
                 match guarded(|| T::par(&cfg, &vals)) {
